@@ -14,7 +14,7 @@ KINDS = {
     'not', 'and', 'or', 'inv', 'sub', 'slice', 'fstr', 'star', 'dstar', 'map', 'filter', 'concat', 'flat',
     'zip', 'try', 'ret', 'raise', 'loop', 'opaque', 'upd', 'setitem', 'delitem', 'after_try', 'eff', 'phi',
     'loopout', 'break', 'continue', 'poly', 'ge0', 'eq0', 'ne0', 'strcat', 'handler', 'blk', 'kw', 'meta',
-    'neg', 'setattr', 'expr', 'yield',
+    'neg', 'setattr', 'expr', 'yield', 'seq',
 }
 
 
@@ -624,6 +624,31 @@ class FuncLower:
                         eff = self.assign(it.optional_vars, call(G('__enter__'), [lw.e(it.context_expr)]), lw, eff)
                 eff = eff + (('expr', call(G('__with__'), items)),)
                 return self.block(list(st.body) + rest, lw, eff)
+            if isinstance(st, ast.Try) and self._simple_try(st):
+                # try: <expression statements / simple assignments>  except: <simple assignments>   -> value-level try terms
+                body_lw = lw.clone()
+                seq = []
+                for b in st.body:
+                    if isinstance(b, ast.Expr):
+                        seq.append(body_lw.e(b.value))
+                    elif isinstance(b, ast.Assign):
+                        body_lw.env[b.targets[0].id] = body_lw.e(b.value)
+                names = []
+                for b in list(st.body) + [x for h in st.handlers for x in h.body]:
+                    if isinstance(b, ast.Assign) and b.targets[0].id not in names:
+                        names.append(b.targets[0].id)
+                hvals = []
+                for h in st.handlers:
+                    hl = lw.clone()
+                    for b in h.body:
+                        if isinstance(b, ast.Assign):
+                            hl.env[b.targets[0].id] = hl.e(b.value)
+                    hvals.append((lw.e(h.type) if h.type is not None else C('bare'), hl))
+                for n in names:
+                    bv = body_lw.env.get(n, lw.env.get(n, C('<unbound>')))
+                    val = ('seq', tuple(seq), bv) if seq else bv
+                    lw.env[n] = ('try', val, tuple(('handler', ht, hl.env.get(n, lw.env.get(n, C('<unbound>')))) for ht, hl in hvals))
+                continue
             if isinstance(st, ast.Try):
                 handlers = []
                 for h in st.handlers:
@@ -671,6 +696,18 @@ class FuncLower:
         if self._in_loop_body:
             return ('continue', self.snapshot(lw), eff)
         return ('ret', NONE, eff)
+
+    @staticmethod
+    def _simple_try(st):
+        if st.orelse or st.finalbody or not st.handlers:
+            return False
+        def simple_assign(b):
+            return isinstance(b, ast.Assign) and len(b.targets) == 1 and isinstance(b.targets[0], ast.Name)
+        if not all(isinstance(b, ast.Expr) and not isinstance(b.value, (ast.Yield, ast.YieldFrom)) or simple_assign(b) for b in st.body):
+            return False
+        if not any(simple_assign(b) for b in st.body) and not any(simple_assign(b) for h in st.handlers for b in h.body):
+            return False
+        return all(all(simple_assign(b) or isinstance(b, ast.Pass) for b in h.body) and h.name is None for h in st.handlers)
 
     def _tail_inline(self, n, lw, eff):
         """`return helper(...)` of an unspecified repository helper whose body has several paths / raises: its block term
@@ -956,6 +993,11 @@ def norm(t):
             return norm(('map', _lam1(lambda x: apply(f, [apply(g, [x])])), xs[2]))
         if f[0] == 'lam' and len(f[1]) == 1 and f[2] == V(f[1][0]):
             return xs                                   # map identity
+        if f[0] == 'lam' and len(f[1]) == 1 and f[2] == ('sub', V(f[1][0]), C(0)) and xs[0] == 'filter' and xs[1][0] == 'lam' \
+                and xs[1][2] == ('sub', V(xs[1][1][0]), C(1)) and xs[2][0] == 'list' and xs[2][1] \
+                and all(e[0] == 'tuple' and len(e[1]) == 2 for e in xs[2][1]):
+            # [a for (a, keep) in [(a1, k1), (a2, k2), ...] if keep]  ==  itertools.compress([a1, a2, ...], [k1, k2, ...])
+            return call(G('itertools.compress'), [('list', tuple(e[1][0] for e in xs[2][1])), ('list', tuple(e[1][1] for e in xs[2][1]))])
         if f[0] == 'lam' and len(f[1]) == 1 and _pairs_source(xs):
             # elements of enumerate(...) / d.items() / zip(a, b) are pairs: (p[0], p[1]) is p
             p = V(f[1][0])
@@ -1036,6 +1078,8 @@ def norm(t):
         return ('zip', tuple(parts))
     if k == 'not':
         a = t[1]
+        if a[0] == 'seq':
+            return ('seq', a[1], norm(('not', a[2])))
         if a[0] == 'not':
             return a[1]
         if a[0] == 'const':
@@ -1054,6 +1098,11 @@ def norm(t):
         return t
     if k == 'cmp':
         a, b = t[2], t[3]
+        # axiom: graphlib.TopologicalSorter.prepare() returns None (it is called for its exception): None == X.prepare() is
+        # "evaluate X.prepare(), then True"
+        for x, y in ((a, b), (b, a)):
+            if t[1] == 'Eq' and x == NONE and y[0] == 'call' and y[1][0] == 'attr' and y[1][2] == 'prepare' and not y[2] and not y[3]:
+                return ('seq', (y,), C(True))
         if a[0] == 'const' and b[0] == 'const':
             try:
                 r = {'Eq': a[1] == b[1], 'NotEq': a[1] != b[1], 'Lt': a[1] < b[1], 'LtE': a[1] <= b[1],
@@ -1292,6 +1341,8 @@ def norm_call(fn, args, kw):
         if g == 'filter' and len(args) == 2 and not kw:
             return norm(('filter', args[0], args[1]))
         if g in ('list', 'iter', 'tuple') and len(args) == 1 and not kw and args[0][0] in SEQ:
+            return args[0]
+        if g in ('list', 'iter', 'tuple') and len(args) == 1 and not kw and args[0][0] == 'call' and args[0][1] == G('itertools.compress'):
             return args[0]
         if g in ('list', 'tuple') and not args and not kw:
             return ('list', ())
@@ -1851,6 +1902,7 @@ def show(t, names=None):
             parts.append(f"{c}" if not m else (ms if c == 1 else f"{c}*{ms}"))
         return '(' + ' + '.join(parts) + ')'
     if k == 'ge0': return f"[{s(t[1])} >= 0]"
+    if k == 'seq': return '(' + '; '.join(s(x) for x in t[1]) + ' ;; ' + s(t[2]) + ')'
     if k == 'phi': return f"φ{t[1]}.{t[2]}"
     if k == 'loopout': return f"loop{t[1]}.{t[2]}"
     if k == 'loop': return f"LOOP{s(t[1])} {s(t[2])} {s(t[3])} init={s(t[4])} body=({s(t[5])})"
